@@ -16,17 +16,25 @@ func corrC05(r *Run) {
 	r.PerShard(16)
 	r.Rule = "forced schedules: 1..8 (thorough: ..24) goroutines calling Submit with request PDUs of all 15 request types and distinct positive sequence numbers; " +
 		"random walks over {issue a call (its frame reaches the transport, the Write is held), let a Write return, make the response to a written request readable, " +
-		"make an unsolicited PDU readable}: responses in any order, before or after the Write returns; fast or slow consumer of PDU(); " +
+		"make an unsolicited PDU readable, (a third of the walks) end a call's own context - also one whose response is already filed while its Write is open: either outcome of that select is accepted}: " +
+		"responses in any order, before or after the Write returns; sequence numbers consecutive, at the ends of the int32 range, or all equal modulo 2^8 / 2^16; inbound frames singly or coalesced and cut regardless of frame boundaries; fast or slow consumer of PDU(); " +
+		"reuse histories: calls that left through their own context with the response already filed, each followed by further Submits on the same connection; " +
 		"first the minimised pre-repair witness (response dispatched while the Write is still open); " +
 		"Resp(): every request type x boundary and random int32 sequence numbers; " +
 		"non-trivial = schedules in which at least one response was dispatched before the request's Write returned; distinct by event list"
 	ts := pduTypes()
 	c05Witness(r)
-	n := r.N(330, 1500)
+	n := r.N(300, 1400)
 	maxCallers := r.N(8, 24)
 	for i := 0; i < n; i++ {
 		i := i
 		confirmed(r, func() { c05Scenario(r, ts, i, maxCallers) })
+	}
+	// state a Conn carries from one Submit to the next: calls that left through their own context
+	// with the response already filed, followed by further calls on the same connection
+	for i, nr := 0, r.N(40, 200); i < nr; i++ {
+		i := i
+		confirmed(r, func() { c05Reuse(r, ts, i) })
 	}
 	c05Resp(r, ts)
 }
@@ -49,8 +57,8 @@ func c05Witness(r *Run) {
 		r.Fail("submit/response-before-write-returns", "a response processed before the transport Write returned did not reach its Submit call", input,
 			fmt.Sprintf("submit=%s PDU()=%s", got, fmtDeliveries(app)), "Submit returns the enquire_link_resp with sequence 7; PDU() yields nothing")
 	}
-	r.Case("witness D25 "+input, w.CaseExpr(connVariant))
-	r.Case("hypotheses-of-C05 hold on witness D25", w.EnvExpr(connVariant))
+	r.Case("witness-D25 "+input, w.CaseExpr(connVariant))
+	r.Case("witness-D25-env hypotheses-of-C05 hold on witness D25", w.EnvExpr(connVariant))
 }
 
 func c05Scenario(r *Run, ts []pduType, idx, maxCallers int) {
@@ -67,12 +75,29 @@ func c05Scenario(r *Run, ts []pduType, idx, maxCallers int) {
 	if idx%11 == 0 {
 		seq = 0x7FFFFFFF - int32(4*n) - 8 // top of the positive range
 	}
-	fresh := func() int32 { seq += int32(1 + rng.Intn(3)); return seq }
+	stride := int32(0) // 256 / 65536: all sequence numbers of this world are equal modulo 2^8 / 2^16
+	switch idx % 9 {
+	case 4:
+		stride, seq = 256, int32(1+rng.Intn(1<<12))
+	case 8:
+		stride, seq = 65536, int32(1+rng.Intn(1<<12))
+	}
+	fresh := func() int32 {
+		if stride != 0 {
+			seq += stride * int32(1+rng.Intn(3))
+			return seq
+		}
+		seq += int32(1 + rng.Intn(3))
+		return seq
+	}
+	cancels := idx%3 == 2 // walks in which callers' own contexts end
 	type cs struct {
-		c        *Call
-		answered bool
-		early    bool
-		wantID   uint32 // command_id of what the peer answered with
+		c         *Call
+		answered  bool
+		early     bool
+		cancelled bool
+		either    bool   // its select finds both the response and its closed context: both outcomes are allowed
+		wantID    uint32 // command_id of what the peer answered with
 	}
 	var calls []*cs
 	var specs []CallSpec
@@ -93,12 +118,23 @@ func c05Scenario(r *Run, ts []pduType, idx, maxCallers int) {
 			if w.Held(x.c) {
 				held = append(held, x)
 			}
-			if !x.answered {
+			if !x.answered && w.Written(x.c) { // the peer answers only what has reached the transport
 				answerable = append(answerable, x)
 			}
 		}
 		if started == n && len(held) == 0 && len(answerable) == 0 {
 			break
+		}
+		if cancels && len(calls) > 0 && rng.Intn(7) == 0 {
+			x := calls[rng.Intn(len(calls))]
+			// (an answered call is cancelled only when its response has been dispatched for sure: not behind a delivery the slow consumer has not taken)
+			if !x.cancelled && !w.Returned(x.c) && !(x.answered && w.watchSending()) {
+				x.cancelled = true
+				x.either = x.answered // answered and not returned: it is inside its Write with the response filed
+				x.answered = true     // the peer does not answer it any more
+				w.CancelCtx(x.c)
+				continue
+			}
 		}
 		if !auto && w.watchSending() && rng.Intn(3) != 0 {
 			w.AppGrant()
@@ -148,7 +184,15 @@ func c05Scenario(r *Run, ts []pduType, idx, maxCallers int) {
 			case k3 == 1:
 				f = oddFrame(rng, f, 2)
 			}
-			w.Peer([][]byte{f}, [][]int{genCuts(rng, len(f))})
+			if rng.Intn(4) == 0 {
+				// the response shares its TCP segments with an unsolicited PDU behind it
+				u := genUnsolicited(rng, ts, fresh())
+				_, id, s := classifyFrame(u)
+				wantApp = append(wantApp, Delivery{id, s})
+				w.PeerStream([][]byte{f, u}, genCuts(rng, len(f)+len(u)))
+			} else {
+				w.Peer([][]byte{f}, [][]int{genCuts(rng, len(f))})
+			}
 		case k == 9:
 			f := genUnsolicited(rng, ts, fresh())
 			_, id, s := classifyFrame(f)
@@ -182,6 +226,13 @@ func c05Scenario(r *Run, ts []pduType, idx, maxCallers int) {
 	for _, x := range calls {
 		c := x.c
 		want := fmt.Sprintf("ok:%#x:%d", x.wantID, c.Seq)
+		if x.cancelled {
+			// its own context ended: an error — or, when the response was already filed, that response
+			if got := c.Class(); !(got == "err" || (x.either && got == want)) {
+				r.Fail("submit/after-own-context", "a Submit whose own context ended returned neither an error nor its own response", input, got, "err"+map[bool]string{true: " or " + want, false: ""}[x.either])
+			}
+			continue
+		}
 		if got := c.Class(); got != want {
 			cls := "submit/wrong-outcome"
 			if x.early {
@@ -203,8 +254,93 @@ func c05Scenario(r *Run, ts []pduType, idx, maxCallers int) {
 		r.Fail("submit/response-leaked", "PDU() did not yield exactly the unsolicited PDUs (a response to an outstanding request leaked, or a PDU was lost)", input,
 			fmtDeliveries(got), fmtDeliveries(wantApp))
 	}
-	r.Case(fmt.Sprintf("sched#%d %.200s", idx, input), w.CaseExpr(connVariant))
-	r.Case(fmt.Sprintf("hypotheses-of-C05 hold on sched#%d", idx), w.EnvExpr(connVariant))
+	// one evaluation: a run of the model shows these observations AND lies within the hypotheses of C05
+	r.Case(fmt.Sprintf("sched#%d (admitted, within the hypotheses of C05) %.200s", idx, input), w.EnvExpr(connVariant))
+}
+
+// c05Reuse: what a Conn carries from one Submit to the next.  Round: request A reaches the transport, its response is
+// dispatched while A's Write is open, A's own context ends, the Write returns — A leaves with its response or through its
+// context (the select decides; both allowed).  Then request B on the same connection: it must return its own response,
+// and PDU() stays empty.  Several rounds per connection, B on the goroutine of A or on another, answered before or after its Write returns.
+func c05Reuse(r *Run, ts []pduType, idx int) {
+	rng := r.Rng
+	w := NewWorld(true)
+	defer w.Shutdown()
+	w.StartWatch()
+	seq := int32(1 + rng.Intn(1<<20))
+	fresh := func() int32 { seq += int32(1 + rng.Intn(3)); return seq }
+	type exp struct {
+		c      *Call
+		want   string
+		either bool
+	}
+	var exps []exp
+	answer := func(c *Call) {
+		f := frameOf(respFor(c.P, c.Seq))
+		w.Peer([][]byte{f}, [][]int{genCuts(rng, len(f))})
+	}
+	wantOf := func(c *Call) string { return fmt.Sprintf("ok:%#x:%d", idOfPDU(c.P)|0x80000000, c.Seq) }
+	g := 0
+	leftByCtx := 0
+	for round, rounds := 0, 2+rng.Intn(4); round < rounds && w.Stuck == ""; round++ {
+		a := w.Go(g, CallSpec{Kind: "submit", Seq: fresh(), P: genSendable(rng, ts, true, 600)})[0]
+		switch rng.Intn(4) {
+		case 0: // A gives up unanswered, inside its Write
+			w.CancelCtx(a)
+			w.Release(a)
+			exps = append(exps, exp{a, "err", false})
+		case 1: // A gives up unanswered, waiting
+			w.Release(a)
+			w.CancelCtx(a)
+			exps = append(exps, exp{a, "err", false})
+		default: // response filed while the Write is open, then the context ends, then the Write returns
+			answer(a)
+			w.CancelCtx(a)
+			w.Release(a)
+			exps = append(exps, exp{a, wantOf(a), true})
+		}
+		if w.Returned(a) && a.Err != nil {
+			leftByCtx++
+		}
+		if rng.Bool() {
+			g++ // B on another goroutine
+		}
+		for k, nb := 0, 1+rng.Intn(2); k < nb && w.Stuck == ""; k++ {
+			b := w.Go(g, CallSpec{Kind: "submit", Seq: fresh(), P: genSendable(rng, ts, true, 600)})[0]
+			if rng.Bool() {
+				answer(b)
+				w.Release(b)
+			} else {
+				w.Release(b)
+				answer(b)
+			}
+			exps = append(exps, exp{b, wantOf(b), false})
+		}
+		g++
+	}
+	input := "sched " + w.Script()
+	r.Count(input, leftByCtx > 0, fmt.Sprintf("reuse/left-by-own-context=%d", min(leftByCtx, 3)))
+	if runStuck(r, w, input) {
+		return
+	}
+	for _, p := range w.Panics() {
+		r.Fail("panic", "a library goroutine panicked", input, p, "no panic")
+	}
+	for _, e := range exps {
+		got := e.c.Class()
+		switch {
+		case e.either && (got == "err" || got == e.want):
+		case !e.either && got == e.want:
+		case e.either || e.want == "err":
+			r.Fail("submit/after-own-context", "a Submit whose own context ended returned neither an error nor its own response", input, got, "err or "+e.want)
+		default:
+			r.Fail("submit/after-an-abandoned-request", "a Submit issued after another call had left through its own context did not return, without error, the response carrying its own sequence number", input, got, e.want)
+		}
+	}
+	if app := w.App(); len(app) != 0 {
+		r.Fail("submit/response-leaked", "PDU() yielded a response to an outstanding request", input, fmtDeliveries(app), "[]")
+	}
+	r.Case(fmt.Sprintf("reuse#%d (admitted, within the hypotheses of C05) %.200s", idx, input), w.EnvExpr(connVariant))
 }
 
 // Resp(): sequence number copied, command_id = request id with the top bit set.
